@@ -475,10 +475,14 @@ def mudlibConnect (S : Scripts) (w : W) : W × Option Oid × Bool :=
       let w := { w with nUser := w.nUser + 1, masterRef := w.masterRef - 1 }   -- free_object (master_ob, ...)
       (mapConn (setInter (setInter w .master none) u (some id)) id (bindTo u), some u, false)
 
+/-- mudlib_logon(): `safe_apply (APPLY_LOGON, ...)` (fix commit) - logon() runs under its own recovery point, an
+    uncaught error in it is reported and stops there: process_io() goes on with the next event of the poll round.
+    (Before, the error unwound to backend() and the rest of the round was abandoned - socket events were reported again
+    by the next poll, a console completion was not.) -/
 def logonHook (rh : HookFn) (w : W) (u : Oid) : R :=
-  let w := emit w (.tLogon u)
+  let w := emit (pushCtx w) (.tLogon u)
   let w := addOut w u s!"hello_{u.name}|"
-  rh w u .logon
+  (popCtx (rh w u .logon).1, false)
 
 /-- after new_interactive(): mudlib_connect(); rejected -> remove the record again; accepted -> logon() -/
 def afterConnect (S : Scripts) (rh : HookFn) (w : W) : R :=
@@ -567,9 +571,11 @@ def processIoEvents (S : Scripts) (rh : HookFn) : List IoEv → W → R
   | e :: es, w =>
     if (ioEvent S rh w e).2 then ((ioEvent S rh w e).1, true) else processIoEvents S rh es (ioEvent S rh w e).1
 
-/-- the entries behind the one whose handler left process_io() by longjmp (an uncaught error in logon()): they are
-    never looked at again, but their descriptors are still ready, so the next poll reports them once more
-    (level-triggered registration) -/
+/-- the entries behind one whose handler left process_io() by longjmp: they are never looked at again, but their
+    descriptors are still ready, so the next poll reports them once more (level-triggered registration).  Since
+    logon() runs under safe_apply (fix commit) no scripted handler leaves process_io() this way any more (what is left
+    in the C code: process_input of the ASCII port in get_user_data) - `abandoned` is `[]` on every scripted run; the
+    mechanism is kept because process_io() itself still has no recovery point. -/
 def abandoned (S : Scripts) (rh : HookFn) : List IoEv → W → List IoEv
   | [], _ => []
   | e :: es, w => if (ioEvent S rh w e).2 then es else abandoned S rh es (ioEvent S rh w e).1
